@@ -84,7 +84,7 @@ PROPS = {
         "assumptions": ["conformant packets only: reserved bits 1, stuffing 0xFF, no reserved trailing bytes inside the adaptation field extension",
                         "TransportPrivateDataLength == len(TransportPrivateData) on the write side"],
         "units": [
-            rap("packets", "^TestC11Packets$", 30000, 150000, 4, 16),
+            rap("packets", "^TestC11Packets$", 30000, 150000, 4, 16, tscale=8),
             det("sweep", "^TestC11Sweep$"),
             rap("write_short", "^TestC11WriteShort$", 5000, 40000, 1, 8),
             rap("stream", "^TestC11Stream$", 5000, 40000, 2, 8),
@@ -162,7 +162,7 @@ PROPS = {
                 "ending within 2 bytes of a packet boundary; distinct by history (operations, arguments' sizes, results)",
         "assumptions": ["WritePacket PIDs (0x1F00-0x1F0F) are disjoint from elementary stream PIDs"],
         "units": [
-            rap("history", "^TestC04History$", 2500, 25000, 4, 16, qscale=10, tscale=6),
+            rap("history", "^TestC04History$", 2500, 25000, 4, 16, qscale=10, tscale=20),
         ],
     },
     "C05": {
@@ -176,7 +176,7 @@ PROPS = {
                 "generation followed by a successful one, or an adaptation field leaving no room for the PES header; distinct by history",
         "assumptions": [],
         "units": [
-            rap("history", "^TestC05History$", 2000, 20000, 4, 16, qscale=10, tscale=6),
+            rap("history", "^TestC05History$", 2000, 20000, 4, 16, qscale=10, tscale=20),
         ],
     },
     "C01": {
@@ -191,7 +191,7 @@ PROPS = {
                 "adaptation field; distinct by history",
         "assumptions": ["the last PES of a stream incarnation may be lost when the same PID is removed and re-added (new continuity counter)"],
         "units": [
-            rap("roundtrip", "^TestC01RoundTrip$", 3000, 25000, 4, 16, qscale=8, tscale=5),
+            rap("roundtrip", "^TestC01RoundTrip$", 3000, 25000, 4, 16, qscale=8, tscale=12),
             rap("pmt_fill", "^TestC01PMTFill$", 1500, 15000, 2, 8),
         ],
     },
@@ -209,7 +209,7 @@ PROPS = {
                 "all; exhaustive unit: every enumerated history is distinct by construction",
         "assumptions": ["PMT too large for one packet and invalid PCR PID make the emission fail; such calls are not required to emit"],
         "units": [
-            rap("random", "^TestC17Random$", 1200, 12000, 4, 16),
+            rap("random", "^TestC17Random$", 1200, 12000, 4, 16, tscale=8),
             rap("version_wrap", "^TestC17VersionWrap$", 150, 1500, 2, 8),
             det("exhaustive", "^TestC17Exhaustive$", quick={"shards": 8}, thorough={"shards": 16, "timeout": 3000}),
         ],
@@ -227,7 +227,7 @@ PROPS = {
         "assumptions": ["WriteTables is expected to succeed exactly when the reference PMT fits one packet and the PCR PID is a configured stream"],
         "units": [
             rap("demux_corruption", "^TestC09Demux$", 250, 1500, 4, 16),
-            rap("mux_sections", "^TestC09Mux$", 1500, 15000, 2, 16),
+            rap("mux_sections", "^TestC09Mux$", 1500, 15000, 2, 16, tscale=10),
         ],
     },
     "C02": {
